@@ -60,8 +60,8 @@ def generate(rng, tier):
         spec["fraction"] = rng.choice([1.0, 1.0, 0.5])
         spec["replace_all"] = False
     elif mode == "aba":
-        fams = ["single", "single", "pair", "collinear", "c2", "c3", "planar", "asymmetric", "td"]
-        spec = worlds.gen_find_world(rng, max_atoms=36, min_copies=1, families=fams, decoys=rng.random() < 0.5, noise_div_K=True)
+        fams = ["single", "single", "pair", "collinear", "c2", "c3", "planar", "planar", "asymmetric", "td", "bigring", "bigring"]
+        spec = worlds.gen_find_world(rng, max_atoms=40, min_copies=1, families=fams, decoys=rng.random() < 0.6, noise_div_K=True)
         replcheck.add_metadata(rng, spec)
         els = spec["pattern"]["elements"]
         absent = [e for e in ["Zn", "Hf", "Ce", "Si", "P", "Se", "I", "B"] if e not in spec["elements"] and e not in els]
@@ -207,7 +207,13 @@ def execute(spec, ctx):
         # the clause is asserted when every occurrence is well inside the tolerance for BOTH steps (residual <= atol/(2 K^2))
         if npat > 1 and "real" not in spec:
             for X in pre[1]:
-                if geom.kabsch(P, np.asarray(X, float))[2].max() > atol / (2.0 * K * K):
+                dev = geom.kabsch(P, np.asarray(X, float))[2].max()
+                if dev > atol / (2.0 * K * K):
+                    # ... unless the reported site is no occurrence at all (then the sequence below is judged as it stands:
+                    # a correct search never reports such a site, so this cannot raise an alarm on correct code)
+                    if geom.minimax_fit(P, np.asarray(X, float)) > np.sqrt(3.0) * (atol + 1e-5 * (np.abs(X).max() + 1.0)) * 1.01 + 1e-9:
+                        ctx.count("aba_non_occurrence_reported")
+                        continue
                     ctx.count("aba_borderline_occurrence_not_judged")
                     return
         res1, k1 = _call_replace(ctx, structure, search, replace, atol, script, hints, fraction=spec.get("fraction", 1.0))
